@@ -40,8 +40,15 @@ RECURSIVE BigLines(_)
 BigLines(i) == IF i > BigN THEN <<>>
                ELSE (IF i > 1 THEN <<BL>> ELSE <<>>) \o <<F(3, 0, 1 + ((i * 2) % 3)), F(1, 0, 1000 + i)>> \o BigLines(i + 1)
 BigDoc == [lines |-> BigLines(1), term |-> TRUE]
-AllDocs == Docs \o <<BigDoc>>
+\* ONE paragraph of BigN fields under four names in rotation (values all different): sorting the fields by name leaves
+\* many ties, far from sorted - the original order must survive among fields of one name (more fields than any
+\* small-input shortcut of a sorting routine)
+RECURSIVE BigFields(_)
+BigFields(i) == IF i > BigN THEN <<>> ELSE <<F(1 + ((i * 3) % 4), 0, 1000 + i)>> \o BigFields(i + 1)
+BigPara == [lines |-> BigFields(1), term |-> TRUE]
+AllDocs == Docs \o <<BigDoc, BigPara>>
 BigIdx == Len(Docs) + 1
+BigParaIdx == Len(Docs) + 2
 VARIABLE case
 Next == UNCHANGED case
 Init == \E d \in 1..Len(AllDocs), ind \in {1, 4, 40}, fnl \in BOOLEAN, iel \in BOOLEAN, one \in {0, 8, 200},
@@ -52,6 +59,7 @@ Init == \E d \in 1..Len(AllDocs), ind \in {1, 4, 40}, fnl \in BOOLEAN, iel \in B
           \* pk = TRUE: the paragraph comparator looks at the primary key only (ties between different paragraphs)
           /\ (pk => sp /\ fmt = "none" /\ one = 0 /\ ~iel)
           /\ (d = BigIdx => pk /\ ind = 1 /\ ~sf)
+          /\ (d = BigParaIdx => sf /\ ind = 1 /\ ~pk /\ one = 0 /\ ~iel /\ fmt = "none")
           /\ case = [d |-> d, doc |-> AllDocs[d], set |-> [ind |-> ind, fnl |-> fnl, iel |-> iel, one |-> one, sp |-> sp, sf |-> sf, fmt |-> fmt, wp |-> wp, pk |-> pk]]
 Emit == PrintT(<<"REPLAY", ToJson(case)>>)
 =============================================================================
